@@ -1676,12 +1676,12 @@ where
             None => return perr!(self, EofWhileParsing),
         }
 
-        // deal with the empty object
-        match self.get_next_token([b'"', b'}'], 1) {
+        // deal with the empty object; nothing but whitespace may precede the first key
+        match self.skip_space() {
             Some(b'"') => {}
             Some(b'}') => return perr!(self, GetInEmptyObject),
             None => return perr!(self, EofWhileParsing),
-            Some(_) => unreachable!(),
+            Some(_) => return perr!(self, ExpectObjectKeyOrEnd),
         }
 
         loop {
